@@ -670,13 +670,11 @@ Proof.
   - (* Select *)
     apply full_select_new; [apply full_drop_sel, F|]. apply lookup_remove_eq.
   - (* Close *)
-    destruct (resolve st s) as [| | |sl i b]; try exact F.
-    + destruct (lookup s (sess st)) as [sl|]; [|exact F].
-      destruct (s_ro sl); [|exact F]. destruct (c_alt ch); [|exact F].
-      apply full_drop_sel, F.
-    + destruct (s_ro sl).
-      * destruct (c_alt ch); [|exact F]. apply full_drop_sel, F.
-      * cbn [fst]. apply full_drop_sel, full_remove_msgs, F.
+    destruct (lookup s (sess st)) as [sl|]; [|exact F].
+    destruct (s_ro sl); [apply full_drop_sel, F|].
+    destruct (find_box st (s_name sl)) as [[i b]|]; [|apply full_drop_sel, F].
+    destruct (i =? s_bid sl); [|exact F].
+    cbn [fst]. apply full_drop_sel, full_remove_msgs, F.
   - (* Logout *) apply full_drop_sel, F.
   - (* Noop *)
     destruct (resolve st s) as [| | |sl i b] eqn:R; try exact F.
@@ -698,7 +696,7 @@ Proof.
   - (* Move *)
     destruct (resolve st s) as [| | |sl i b]; try exact F.
     destruct (find_box st nm) as [[j bj]|]; [|exact F].
-    destruct (s_ro sl && c_alt ch); [exact F|].
+    destruct (s_ro sl); [exact F|].
     destruct (pick_ok st s j (c_pick ch)) eqn:Hp; [|exact F].
     match goal with |- context [copy_loop true i j ?c ?us st] =>
       pose proof (full_copy_loop true i j c us st F (pick_ok_valid _ _ _ _ Hk Hp)) as F1;
